@@ -65,7 +65,7 @@ def showOutcome : Outcome → String
   | .serve _ c => "file " ++ toHex c
   | .listing url _ rows =>
     "list " ++ toHex (escape url) ++ (if url != [47] && !url.isEmpty then " P" else " N")
-      ++ String.join (rows.map fun r => " " ++ toHex r.text) ++ " H"
+      ++ String.join (rows.map fun r => " " ++ toHex r.anchor)
 
 def showCidr : Option Path → String
   | none => "none"
@@ -119,9 +119,8 @@ def step (cfg : Option Config) (line : String) : Option Config × String :=
           let rest := real.drop root.length
           root.isPrefixOf real && (rest.isEmpty || rest.head? == some 47) && Spec.noDotDot rest)
       | _, _ => "bad-op")
-  | ["J", "row", names, text] => (cfg, match splitHexList names, parseHex text with
-      | some names, some text =>
-        boolStr (names.any fun n => n.head? != some 46 && (Spec.escapedFor n text || Spec.escapedFor (n ++ [47]) text))
+  | ["J", "row", names, raw] => (cfg, match splitHexList names, parseHex raw with
+      | some names, some raw => boolStr (Spec.rowOk names raw)
       | _, _ => "bad-op")
   | ["J", "escaped", plain, text] => (cfg, match parseHex plain, parseHex text with
       | some plain, some text => boolStr (Spec.escapedFor plain text)
